@@ -30,9 +30,8 @@ fn read_script(path: &str) -> Vec<Value> {
 fn worker(script: &str) {
     exec::install_panic_hook();
     let ops = read_script(script);
-    let stdout = std::io::stdout();
-    let mut lock = stdout.lock();
-    exec::run_script(&ops, &mut lock);
+    let out: exec::Out = std::sync::Arc::new(std::sync::Mutex::new(Box::new(std::io::stdout())));
+    exec::run_script(&ops, out);
 }
 
 fn run_one(script: &str, trace: &str) -> std::io::Result<()> {
